@@ -37,6 +37,7 @@ func poolKey(c *Ctx, bits, idx int) *rsa.PrivateKey { return poolKeyDir(c.VerifD
 func poolKeyDir(verifDir string, bits, idx int) *rsa.PrivateKey {
 	keyMu.Lock()
 	defer keyMu.Unlock()
+	caVerifDir = verifDir
 	name := fmt.Sprintf("rsa%d-%d.pem", bits, idx)
 	if k, ok := keyCache[name]; ok {
 		return k
@@ -62,10 +63,13 @@ func poolKeyDir(verifDir string, bits, idx int) *rsa.PrivateKey {
 }
 
 type certShape struct {
-	issuer pkix.Name
-	serial *big.Int
-	desc   string
+	issuer  pkix.Name
+	serial  *big.Int
+	desc    string
+	subject *pkix.Name // non-nil: issued by a CA named `issuer` (issuer and subject differ); nil: self-signed
 }
+
+var caVerifDir string // where the pool keys live (set by poolKeyDir); the CA key is pool key 2
 
 func certShapes(_ *Ctx) []certShape {
 	long := strings.Repeat("Very Long Organisation Name ", 8)
@@ -77,15 +81,18 @@ func certShapes(_ *Ctx) []certShape {
 	hi := new(big.Int).SetBytes([]byte{0x80, 0, 0, 1})         // high bit set: needs a leading zero octet
 	lz := new(big.Int).SetBytes([]byte{0x00, 0x7f, 0xff})       // leading zero in the source bytes
 	return []certShape{
-		{pkix.Name{CommonName: "a"}, big.NewInt(1), "short/1"},
-		{pkix.Name{CommonName: "Platform Key", Organization: []string{long}, Country: []string{"NO"}}, big.NewInt(127), "long/127"},
-		{pkix.Name{CommonName: "db", Organization: []string{"O1", "O2"}, OrganizationalUnit: []string{"U1", "U2"}, Locality: []string{"L"}}, big.NewInt(128), "multi/128"},
-		{pkix.Name{CommonName: "hi"}, hi, "short/highbit"},
-		{pkix.Name{CommonName: "lz"}, lz, "short/leadingzero"},
-		{pkix.Name{CommonName: "KEK éè"}, new(big.Int).SetBytes(b20), "utf8/20bytes"},
-		{pkix.Name{CommonName: "x"}, new(big.Int).Lsh(big.NewInt(1), 159), "short/2^159"},
-		{pkix.Name{CommonName: "y"}, big.NewInt(255), "short/255"},
-		{pkix.Name{CommonName: "z"}, big.NewInt(256), "short/256"},
+		{issuer: pkix.Name{CommonName: "a"}, serial: big.NewInt(1), desc: "short/1"},
+		{issuer: pkix.Name{CommonName: "Platform Key", Organization: []string{long}, Country: []string{"NO"}}, serial: big.NewInt(127), desc: "long/127"},
+		{issuer: pkix.Name{CommonName: "db", Organization: []string{"O1", "O2"}, OrganizationalUnit: []string{"U1", "U2"}, Locality: []string{"L"}}, serial: big.NewInt(128), desc: "multi/128"},
+		{issuer: pkix.Name{CommonName: "hi"}, serial: hi, desc: "short/highbit"},
+		{issuer: pkix.Name{CommonName: "lz"}, serial: lz, desc: "short/leadingzero"},
+		{issuer: pkix.Name{CommonName: "KEK éè"}, serial: new(big.Int).SetBytes(b20), desc: "utf8/20bytes"},
+		{issuer: pkix.Name{CommonName: "x"}, serial: new(big.Int).Lsh(big.NewInt(1), 159), desc: "short/2^159"},
+		{issuer: pkix.Name{CommonName: "y"}, serial: big.NewInt(255), desc: "short/255"},
+		{issuer: pkix.Name{CommonName: "z"}, serial: big.NewInt(256), desc: "short/256"},
+		// issued by a CA: issuer and subject are different names
+		{issuer: pkix.Name{CommonName: "Test Root CA", Organization: []string{"Verification"}}, serial: big.NewInt(4097), desc: "ca-issued/4097", subject: &pkix.Name{CommonName: "leaf signer"}},
+		{issuer: pkix.Name{CommonName: "R"}, serial: new(big.Int).SetBytes([]byte{0xC3, 0x50, 0x00}), desc: "ca-issued/highbit", subject: &pkix.Name{CommonName: "A considerably longer subject than issuer", Country: []string{"SE"}}},
 	}
 }
 
@@ -101,7 +108,19 @@ func makeRSACert(key *rsa.PrivateKey, sh certShape) *x509.Certificate {
 	}
 	tmpl := &x509.Certificate{SerialNumber: sh.serial, Subject: sh.issuer, NotBefore: time.Unix(1700000000, 0), NotAfter: time.Unix(2000000000, 0),
 		KeyUsage: x509.KeyUsageDigitalSignature, BasicConstraintsValid: true}
-	der, err := x509.CreateCertificate(rand.Reader, tmpl, tmpl, &key.PublicKey, key)
+	parent, signer := tmpl, key
+	if sh.subject != nil {
+		keyMu.Lock()
+		dir := caVerifDir
+		keyMu.Unlock()
+		signer = poolKeyDir(dir, 2048, 2)
+		parent = &x509.Certificate{SerialNumber: big.NewInt(1), Subject: sh.issuer, NotBefore: time.Unix(1700000000, 0), NotAfter: time.Unix(2000000000, 0),
+			KeyUsage: x509.KeyUsageCertSign, BasicConstraintsValid: true, IsCA: true}
+		leaf := *tmpl
+		leaf.Subject = *sh.subject
+		tmpl = &leaf
+	}
+	der, err := x509.CreateCertificate(rand.Reader, tmpl, parent, &key.PublicKey, signer)
 	if err != nil {
 		panic(err)
 	}
